@@ -81,6 +81,9 @@ MUTANTS = [
     M("sig-benign-hoist-pubkey", SM,
       "                rsa.verify_signature(self._node.get_pubkey(), signature[1], prefix)\n",
       "                sig = signature[1]\n                rsa.verify_signature(self._node.get_pubkey(), sig, prefix)\n", None),
+    M("sig-benign-rename-raw-verinfo", SM,
+      "        _, verinfo, signature, __, ___ = results\n        verinfo = self._make_verinfo_hashable(verinfo[1])\n",
+      "        _, raw_verinfo, signature, __, ___ = results\n        verinfo = self._make_verinfo_hashable(raw_verinfo[1])\n", None),
     # ---- C10.4 who may record
     M("publish-records-surprise-share", PUB,
       "                    # signal UCW, but make sure to ask this server next time,\n",
